@@ -186,7 +186,7 @@ func (ss *Sorts) isTransparentPkg(p *types.Package) bool {
 // Of returns the SMT sort of a Go type.
 func (ss *Sorts) Of(t types.Type) *Sort {
 	t = types.Unalias(t)
-	key := types.TypeString(t, nil)
+	key := typeKey(t)
 	if s, ok := ss.byKey[key]; ok {
 		return s
 	}
@@ -196,6 +196,34 @@ func (ss *Sorts) Of(t types.Type) *Sort {
 	}
 	ss.byKey[key] = s
 	return s
+}
+
+// typeKey is the memoization key of a type; function-local named types are distinguished by position.
+func typeKey(t types.Type) string {
+	key := types.TypeString(t, nil)
+	var walk func(t types.Type)
+	seen := 0
+	walk = func(t types.Type) {
+		seen++
+		if seen > 8 {
+			return
+		}
+		switch u := types.Unalias(t).(type) {
+		case *types.Named:
+			if o := u.Obj(); o.Pkg() != nil && o.Parent() != nil && o.Parent() != o.Pkg().Scope() {
+				key += fmt.Sprintf("@%d", int(o.Pos()))
+			}
+		case *types.Pointer:
+			walk(u.Elem())
+		case *types.Slice:
+			walk(u.Elem())
+		case *types.Map:
+			walk(u.Key())
+			walk(u.Elem())
+		}
+	}
+	walk(t)
+	return key
 }
 
 func (ss *Sorts) opaque(name string, t types.Type) *Sort {
@@ -282,6 +310,9 @@ func (ss *Sorts) build(t types.Type, key string) *Sort {
 			return ss.opaque(obj.Name(), t)
 		}
 		qn := mangle(obj.Pkg().Name() + "_" + obj.Name())
+		if obj.Parent() != nil && obj.Parent() != obj.Pkg().Scope() {
+			qn += fmt.Sprintf("_l%d", int(obj.Pos())) // function-local type: names need not be unique in the package
+		}
 		if u.TypeArgs() != nil && u.TypeArgs().Len() > 0 {
 			var as []string
 			for i := 0; i < u.TypeArgs().Len(); i++ {
